@@ -368,7 +368,9 @@ func Chains(j *job.Job, s *job.Sink) {
 }
 
 // Malformed: clearly malformed restriction strings must be rejected.
-var badDecimal = []string{".", "-.", "-. | .", "+.", ". .. .", "1.0..", "..2.5", "a", "1.2.3", "1.0..2.0..3.0", "--1.0", "1e3", "+-1.5", "1,5", "1.5|", "|1.5", "", "|", "1. 5", "- 1.5", "1.5..-", "min..", "0.5..ma x"}
+var badDecimal = []string{".", "-.", "-. | .", "+.", ". .. .", "1.0..", "..2.5", "a", "1.2.3", "1.0..2.0..3.0", "--1.0", "1e3", "+-1.5", "1,5", "1.5|", "|1.5", "", "|", "1. 5", "- 1.5", "1.5..-", "min..", "0.5..ma x",
+	// a sign behind the point, a point too many
+	".-5", ".+5", "5.-", "+.-1", "1.-0", "1..2.3.4", "0.5..", "..5"}
 
 func Malformed(j *job.Job, s *job.Sink) {
 	bad := []string{"", "|", "1|", "|1", "..", "1..", "..5", "1..2..3", "a", "1..b", "1.5", "1..2|", "1 2", "--1", "1-2", "1...5", "min..", "..max", "5..1", "1..5|3..2", "1,5", "0x", "1e3",
